@@ -100,6 +100,10 @@ func (cs *ContractSet) readContractFile(path, pkgPath string) error {
 	var lines []rawLine
 	for i, l := range strings.Split(string(data), "\n") {
 		t := strings.TrimSpace(l)
+		// gofmt rewrites "//@" to "// @" inside doc comments: both forms are contract lines
+		if strings.HasPrefix(t, "// @") {
+			t = "//@" + t[4:]
+		}
 		if !strings.HasPrefix(t, "//@") {
 			continue
 		}
